@@ -171,6 +171,8 @@ namespace sim
 		std::size_t cancel_one();
 
 		time_type expiry() const;
+		// the order in which timers were armed. It decides between equal expiries
+		std::uint64_t armed_seq() const { return m_armed_seq; }
 		std::size_t expires_at(const time_type& expiry_time);
 		std::size_t expires_after(const duration_type& expiry_time);
 
@@ -187,6 +189,7 @@ namespace sim
 		aux::function<void(boost::system::error_code const&)> m_handler;
 		io_context* m_io_service;
 		bool m_expired;
+		std::uint64_t m_armed_seq = 0;
 	};
 
 	using waitable_timer = high_resolution_timer;
@@ -1041,6 +1044,7 @@ namespace sim
 
 		void add_timer(asio::high_resolution_timer* t);
 		void remove_timer(asio::high_resolution_timer* t);
+		std::uint64_t next_timer_seq() { return ++m_timer_seq; }
 
 		boost::asio::io_context& get_internal_service()
 		{ return m_service; }
@@ -1114,6 +1118,9 @@ namespace sim
 		// specified. We want this to be as unique as possible, to distinguish the
 		// TCP streams.
 		std::uint16_t m_next_bind_port = 2000;
+
+		// counts the arming of timers (expires_at / expires_after)
+		std::uint64_t m_timer_seq = 0;
 
 		bool m_stopped = false;
 
